@@ -122,7 +122,7 @@ func judge(c Case) (*vf.Failure, string, int64) {
 
 func TestHeapDiscipline(t *testing.T) {
 	defer vf.AfterCheck(t)
-	vf.Checks(480, 6000)
+	vf.Checks(480, 2400)
 	rapid.Check(t, func(t *rapid.T) {
 		cfg := gen.Config{MaxStmts: rapid.IntRange(3, 9).Draw(t, "size"), MaxDepth: rapid.IntRange(1, 3).Draw(t, "depth"), Funcs: 3, Structs: true, AllowRTE: false, Bias: "heap"}
 		var prog *gen.Program
@@ -195,7 +195,7 @@ func TestHeapDiscipline(t *testing.T) {
 // Variable holders (small and big values behind one type): own generator, same invariants.
 func TestVariableHolders(t *testing.T) {
 	defer vf.AfterCheck(t)
-	vf.Checks(96, 1500)
+	vf.Checks(96, 600)
 	rapid.Check(t, func(t *rapid.T) {
 		src, _, feats := gen.GenerateVariableProgram(t, rapid.IntRange(0, 3).Draw(t, "main-in-function") > 0)
 		c := Case{Source: src}
